@@ -724,3 +724,132 @@ add('C16', 'twin', 'pop-guard-early-continue', [(C, '''                if isinst
                     stream.write(str(colorstack[-1]))
                 else:
                     stream.write(str(colorful.reset))''')])
+
+# ----------------------------------------------------------------------------- C10
+add('C10', 'breaker', 'take-plus-one', [(P, 'for el in take(ctx.max_seq_len, value)', 'for el in take(ctx.max_seq_len + 1, value)')], 'C10')
+add('C10', 'breaker', 'count-off-by-one', [(P, '''            len(value) - ctx.max_seq_len
+        )''', '''            len(value) - ctx.max_seq_len + 1
+        )''')], 'C10.b')
+add('C10', 'breaker', 'dict-count-from-pairs', [(P, 'count_truncated = len(d) - ctx.max_seq_len', 'count_truncated = len(d) - ctx.max_seq_len - 1')], 'C10.b')
+add('C10', 'breaker', 'none-not-normalised', [(P, '''    if max_seq_len is None:
+        # No truncation: no sequence is longer than this.
+        max_seq_len = sys.maxsize
+''', '')], 'C10.c')
+add('C10', 'breaker', 'none-to-float-inf', [(P, '        max_seq_len = sys.maxsize\n', "        max_seq_len = float('inf')\n")], 'C10.c')
+add('C10', 'breaker', 'dict-loop-untruncated', [(P, 'for k in take(ctx.max_seq_len, sorted_keys):', 'for k in sorted_keys:')], 'C10')
+add('C10', 'breaker', 'take-args-swapped', [(U, 'return islice(iterable, n)', 'return islice(iterable, n, None)')], 'C10.b')
+add('C10', 'breaker', 'notice-ge', [(P, '''    is_native_type = constructor in (tuple, list, set)
+    if len(value) > ctx.max_seq_len:''', '''    is_native_type = constructor in (tuple, list, set)
+    if len(value) >= ctx.max_seq_len:''')], 'C10')
+add('C10', 'breaker', 'nested-resets-limit', [(P, '''    def nested_call(self):
+        return self._replace(depth_left=self.depth_left - 1)''', '''    def nested_call(self):
+        return self._replace(depth_left=self.depth_left - 1, max_seq_len=1000)''')], 'C10.d')
+add('C10', 'breaker', 'truncated-keys-from-other-order', [(P, '''        sorted(d.keys(), key=_AlwaysSortable)
+        if ctx.sort_dict_keys
+        else d.keys()
+    )''', '''        sorted(d.keys(), key=_AlwaysSortable)
+        if ctx.sort_dict_keys
+        else list(d.keys())[1:]
+    )''')], 'C10.b')
+add('C10', 'breaker', 'notice-dropped-when-user-comment', [(P, '''        trailing_comment = (
+            truncation_comment + '. ' + trailing_comment
+            if trailing_comment
+            else truncation_comment
+        )
+
+    dangle = False''', '''        trailing_comment = (
+            trailing_comment
+            if trailing_comment
+            else truncation_comment
+        )
+
+    dangle = False''')], 'C10.d')
+add('C10', 'twin', 'lt-orientation', [(P, '''    is_native_type = constructor in (tuple, list, set)
+    if len(value) > ctx.max_seq_len:''', '''    is_native_type = constructor in (tuple, list, set)
+    if ctx.max_seq_len < len(value):''')])
+add('C10', 'twin', 'inline-count', [(P, '''        count_truncated = len(d) - ctx.max_seq_len
+        truncation_comment = '...and {} more elements'.format(
+            count_truncated
+        )''', '''        truncation_comment = '...and {} more elements'.format(len(d) - ctx.max_seq_len)''')])
+add('C10', 'twin', 'islice-explicit-start', [(U, 'return islice(iterable, n)', 'return islice(iterable, 0, n)')])
+
+# ----------------------------------------------------------------------------- C11
+add('C11', 'breaker', 'decrement-by-two', [(P, 'return self._replace(depth_left=self.depth_left - 1)', 'return self._replace(depth_left=self.depth_left - 2)')], 'C11.b')
+add('C11', 'breaker', 'elements-with-parent-ctx', [(P, '''            pretty_python_value(
+                el,
+                ctx=(
+                    ctx
+                    .nested_call()
+                    .use_multiline_strategy(MULTILINE_STRATEGY_HANG)
+                )
+            )
+            for el in take''', '''            pretty_python_value(
+                el,
+                ctx=(
+                    ctx
+                    .use_multiline_strategy(MULTILINE_STRATEGY_HANG)
+                )
+            )
+            for el in take''')], 'C11.b')
+add('C11', 'breaker', 'dict-value-double-nested', [(P, '''        vdoc = pretty_python_value(
+            v,
+            ctx=(
+                ctx
+                .nested_call()
+                .use_multiline_strategy(MULTILINE_STRATEGY_INDENTED)
+            ),
+        )''', '''        vdoc = pretty_python_value(
+            v,
+            ctx=(
+                ctx
+                .nested_call()
+                .nested_call()
+                .use_multiline_strategy(MULTILINE_STRATEGY_INDENTED)
+            ),
+        )''')], 'C11.b')
+add('C11', 'breaker', 'dict-depth-test-removed', [(P, '''    is_native_type = constructor is dict
+    if ctx.depth_left == 0:
+        literal = concat([LBRACE, ELLIPSIS, RBRACE])
+
+        if is_native_type:
+            return literal
+
+        return build_fncall(
+            ctx,
+            general_identifier(constructor),
+            argdocs=(literal, ),
+            hug_sole_arg=True
+        )
+''', '''    is_native_type = constructor is dict
+''')], 'C11.c')
+add('C11', 'breaker', 'call-alt-depth-lt', [(P, '''    if ctx.depth_left <= 0:
+        return concat([fndoc, LPAREN, ELLIPSIS, RPAREN])''', '''    if ctx.depth_left < 0:
+        return concat([fndoc, LPAREN, ELLIPSIS, RPAREN])''')], 'C11')
+add('C11', 'breaker', 'depth-used-as-width', [(P, '''    MAX_PRACTICAL_RIBBON_WIDTH = 150
+''', '''    MAX_PRACTICAL_RIBBON_WIDTH = 150 if ctx.depth_left > 2 else 100
+''')], 'C11.a')
+add('C11', 'breaker', 'none-depth-to-zero', [(P, "        depth = float('inf')\n", "        depth = 0\n")], 'C11.a')
+add('C11', 'breaker', 'placeholder-without-ellipsis', [(P, '''    if ctx.depth_left == 0:
+        if isinstance(value, (list, tuple)):
+            literal = concat([left, ELLIPSIS, right])''', '''    if ctx.depth_left == 0:
+        if isinstance(value, (list, tuple)):
+            literal = concat([left, right])''')], 'C11.c')
+add('C11', 'breaker', 'kwargs-not-nested', [(P, '''            (kwarg, pretty_python_value(v, nested_ctx))
+            for kwarg, v in kwargitems''', '''            (kwarg, pretty_python_value(v, ctx))
+            for kwarg, v in kwargitems''')], 'C11.b')
+add('C11', 'breaker', 'str-depth-test-after', [(P, '''    if ctx.depth_left == 0:
+        return pretty_call_alt(ctx, constructor, args=(..., ))
+
+    multiline_strategy = ctx.multiline_strategy''', '''    multiline_strategy = ctx.multiline_strategy''')], 'C11.c')
+add('C11', 'twin', 'depth-test-le', [(P, '''    is_native_type = constructor is dict
+    if ctx.depth_left == 0:''', '''    is_native_type = constructor is dict
+    if ctx.depth_left <= 0:''')])
+add('C11', 'twin', 'nested-ctx-temp', [(P, '''        vdoc = pretty_python_value(
+            v,
+            ctx=(
+                ctx
+                .nested_call()
+                .use_multiline_strategy(MULTILINE_STRATEGY_INDENTED)
+            ),
+        )''', '''        value_ctx = ctx.nested_call().use_multiline_strategy(MULTILINE_STRATEGY_INDENTED)
+        vdoc = pretty_python_value(v, ctx=value_ctx)''')])
